@@ -1,10 +1,12 @@
 (* C13 — All client wire formats decode the same batch identically and safely.
-   Only the property theorems (closed by [exact]) and non-vacuity examples.  PARTIAL: the decoder-after-encoder
-   theorem is proved for MessagePack (the hand-written decoder of msgpack.go on top of the msgp readers); for TL,
-   Protobuf and JSON the same statement is checked by the correspondence run only (every CEnc/CJson case checks
-   model encoder = reference encoder bytes and real decoder = canon), not proved. *)
+   Only the property theorems (closed by [exact]) and non-vacuity examples.
+   Decoder-after-encoder is proved for all four formats (JSON at tree level, under the strconv round-trip hypotheses);
+   cross-format equality is their corollary.  [roomy v] holds for the code as written now ([repaired]: collection
+   counts are checked against the bytes left) and for the earlier code given enough memory.  PARTIAL: "never hangs" is
+   proved for the Protobuf/JSON/legacy/empty branches and the TCP framing; for the TL and MessagePack loops the
+   model's fuel bound is exercised, not proved adequate. *)
 From Coq Require Import ZArith List Bool Lia.
-From SH Require Import Common.Wrap TL.Model Wire.Model Wire.Proofs.
+From SH Require Import Common.Wrap TL.Model Wire.Model Wire.Proofs Wire.ProofsPB Wire.ProofsTL Wire.ProofsJson Wire.ProofsCross Wire.ProofsTotal.
 Import ListNotations.
 Open Scope Z_scope.
 
@@ -62,8 +64,8 @@ Definition ex_batch : list metric :=
       m_ts := Some 1700000000; m_value := Some [4611686018427387904; 0]; m_unique := Some [-5; 9223372036854775807];
       m_hist := Some [(4607182418800017408, 4613937818241073152)] |};
    {| m_name := []; m_tags := []; m_counter := None; m_ts := None; m_value := None; m_unique := None; m_hist := None |}].
-Example C13_nonvacuous_premises : wf_batch ex_batch = true /\ roomy (faithful (2 ^ 40)).
-Proof. split; [reflexivity|]. unfold roomy; cbn. unfold two32. lia. Qed.
+Example C13_nonvacuous_premises : wf_batch ex_batch = true /\ roomy (faithful (2 ^ 40)) /\ roomy repaired.
+Proof. split; [reflexivity|]. unfold roomy; cbn. unfold two32. split; [lia|exact I]. Qed.
 Example C13_nonvacuous_cross_format :
   let want := {| o_fmt := FProtobuf; o_metrics := map canon ex_batch; o_end := EDone |} in
   o_metrics (parse0 (faithful (2 ^ 40)) (enc_tl ex_batch)) = map canon ex_batch /\
@@ -77,3 +79,76 @@ Example C13_nonvacuous_detection :
   detect [57; 2; 88; 86; 0] = FTL /\ detect [123; 125] = FJSON /\ detect [83; 72; 1] = FLegacy /\ detect [222; 0; 1] = FMsgpack /\
   detect [222; 0] = FProtobuf /\ detect [202; 193; 6] = FProtobuf /\ detect [] = FEmpty.
 Proof. vm_compute. repeat split; reflexivity. Qed.
+
+(* "A metrics batch encoded as ... Protobuf ... is decoded into the same sequence of metrics": for the explicit
+   encoding (every present field written; repeated scalars packed or — given the corrected wire-type test — unpacked)
+   and for the proto3-minimal encoding (default-valued fields omitted), against the decoder of protobuf.go over
+   protowire.  What an encoding cannot express (a present-but-empty list, a present zero in the minimal form) comes
+   back with its presence bit clear and the same value: [pb_expect fm m = canon (pb_norm fm m)].  [pb_sized]: every
+   length-delimited field fits its 64-bit length prefix. *)
+Theorem C13_decode_encode_protobuf : forall v fm b, form_ok v fm -> wf_batch b = true -> pb_sized fm b ->
+  pb_batch v (length (enc_pb_batch fm b)) [] (enc_pb_batch fm b) = PbOk (map (pb_expect fm) b).
+Proof. exact pb_batch_enc. Qed.
+Theorem C13_protobuf_same_view : forall fm m, wf_metric m = true -> view (pb_expect fm m) = view (canon m).
+Proof. exact view_pb_norm. Qed.
+Theorem C13_parse_protobuf_batch : forall pf pu pi lex v fm b, form_ok v fm -> wf_batch b = true -> pb_sized fm b -> b <> [] ->
+  parse pf pu pi lex v (enc_pb_batch fm b) = {| o_fmt := FProtobuf; o_metrics := map (pb_expect fm) b; o_end := EDone |}.
+Proof. exact parse_enc_pb. Qed.
+
+(* "... encoded as TL ...": C14's generic round trip instantiated on statshouse.addMetricsBatch *)
+Theorem C13_decode_encode_tl : forall b rest, wf_batch b = true -> tl_batch (enc_tl b ++ rest) = Ok (map canon b, rest).
+Proof. exact tl_batch_enc. Qed.
+Theorem C13_parse_tl_batch : forall pf pu pi lex v b, wf_batch b = true ->
+  parse pf pu pi lex v (enc_tl b) = {| o_fmt := FTL; o_metrics := map canon b; o_end := EDone |}.
+Proof. exact parse_enc_tl. Qed.
+
+(* "... encoded as JSON ...": at tree level (the reader applied to the tree the text denotes), for number
+   printers/parsers that round-trip (strconv: every double in [json_f64], every uint32, every int64) — partial:
+   lexing/escapes are below the model, tag keys needing escapes are finding F-C13e *)
+Theorem C13_decode_encode_json_partial : forall pf pu pi prf pru pri json_f64,
+  (forall x, json_f64 x = true -> pf false (prf x) = Some x) ->
+  (forall t, 0 <= t < two32 -> pu false (pru t) = Some t) ->
+  (forall x, - two63 <= x < two63 -> pi false (pri x) = Some x) ->
+  forall b, wf_batch b = true -> forallb (json_metric_ok json_f64) b = true ->
+  j_batch pf pu pi (enc_json prf pru pri b) = Ok (map canon b).
+Proof. exact j_batch_enc. Qed.
+
+(* "A metrics batch encoded as TL, JSON, MessagePack or Protobuf is decoded into the same sequence of metrics (name,
+   tags, counter, timestamp, values, uniques, histogram)" *)
+Theorem C13_cross_format_equal : forall pf pu pi prf pru pri json_f64,
+  (forall x, json_f64 x = true -> pf false (prf x) = Some x) ->
+  (forall t, 0 <= t < two32 -> pu false (pru t) = Some t) ->
+  (forall x, - two63 <= x < two63 -> pi false (pri x) = Some x) ->
+  forall v fm b, roomy v -> form_ok v fm -> wf_batch b = true -> pb_sized fm b -> forallb (json_metric_ok json_f64) b = true ->
+  exists d_pb,
+    tl_batch (enc_tl b) = Ok (map canon b, []) /\
+    mp_batch v (enc_mp b) = Ok (map canon b, []) /\
+    j_batch pf pu pi (enc_json prf pru pri b) = Ok (map canon b) /\
+    pb_batch v (length (enc_pb_batch fm b)) [] (enc_pb_batch fm b) = PbOk d_pb /\
+    map view d_pb = map view (map canon b).
+Proof. exact cross_format_equal. Qed.
+
+(* "Decoding arbitrary bytes never ... hangs": for EVERY byte string the Protobuf decoder, run with the fuel parse gives
+   it (the packet length), ends with metrics or an error — every loop iteration (fields, groups, packed elements)
+   consumes a byte; the same for parse on every packet not detected as TL or MessagePack.  Partial: the TL and
+   MessagePack loops are not covered. *)
+Theorem C13_decode_total_protobuf : forall v fuel ms b, (length b <= fuel)%nat -> pb_batch v fuel ms b <> PbNoFuel.
+Proof. exact pb_batch_total. Qed.
+Theorem C13_decode_total_partial : forall pf pu pi lex v pkt, detect pkt <> FTL -> detect pkt <> FMsgpack ->
+  o_end (parse pf pu pi lex v pkt) <> ENoFuel /\ o_end (parse pf pu pi lex v pkt) <> ECrash.
+Proof. exact parse_total_pb_json. Qed.
+(* the TCP receive loop's framing: each iteration consumes at least the 4 header bytes, so any fuel >= the stream
+   length gives the same frames — the loop bound is never what stops it *)
+Theorem C13_tcp_framing_progress : forall fuel s, (length s <= fuel)%nat -> frames fuel s = frames (length s) s.
+Proof. exact frames_fuel_enough. Qed.
+
+(* non-vacuity of the new premises *)
+Example C13_nonvacuous_forms :
+  form_ok repaired (PExplicit false) /\ form_ok repaired PMinimal /\ pb_sized PMinimal ex_batch /\ pb_sized (PExplicit false) ex_batch /\
+  forallb (json_metric_ok (fun _ => true)) ex_batch = true /\
+  parse0 repaired (enc_pb_min ex_batch) = {| o_fmt := FProtobuf; o_metrics := map (pb_expect PMinimal) ex_batch; o_end := EDone |} /\
+  parse0 repaired (enc_pb false ex_batch) = {| o_fmt := FProtobuf; o_metrics := map canon ex_batch; o_end := EDone |}.
+Proof.
+  split; [reflexivity|]. split; [exact I|]. split; [repeat constructor; vm_compute; reflexivity|].
+  split; [repeat constructor; vm_compute; reflexivity|]. vm_compute. repeat split; reflexivity.
+Qed.
